@@ -288,6 +288,20 @@ def run(ctx):
                     if bits(np.asarray(lls_r)) != bits(base[idx]):
                         ctx.violation("values-not-in-input-order", "with a shuffled evaluation order the likelihoods do not come "
                                       "back in the order of the requested rows", dict(desc, idx_head=idx[:8]))
+            # a shuffled subset (n_prior_samples + randomize) must be the same rows whether the library is an object or a file
+            if N > 3:
+                sub = {}
+                for kind in ("obj", "file"):
+                    jj = TheJoker(pb.prior, pool=get_pool(0), rng=np.random.default_rng(seed), tempfile_path=ctx.tmpdir)
+                    o_, l_ = jj.rejection_sample(pb.data, pb.lib if kind == "obj" else path, randomize_prior_order=True,
+                                                 n_prior_samples=max(2, N // 3), return_all_logprobs=True)
+                    sub[kind] = (np.searchsorted(pb.tagP, np.asarray(o_["P"].to_value("d"))).tolist(), bits(l_))
+                ctx.evaluations += 1
+                ctx.distinct.add(repr(("shuffled-subset", "obj-vs-file")))
+                if sub["obj"] != sub["file"]:
+                    ctx.violation("accepted-set-depends-on-path", "randomize_prior_order + n_prior_samples with equal seeds: the object "
+                                  "path accepts rows %s..., the file path %s..." % (sub["obj"][0][:6], sub["file"][0][:6]),
+                                  dict(desc, seed=seed))
             vals = list(sets.values())
             if any(v != vals[0] for v in vals[1:]):
                 ctx.violation("accepted-set-depends-on-path", "equal seeds but different accepted rows across paths: %s"
